@@ -1,3 +1,283 @@
-import PydraModel.PathTemplate.Model
+import PydraModel.PathTemplate.Lemmas2
+/-
+C26 — Output path templates resolve inside the job directory.
+
+Property theorems only (helper lemmas: `PathTemplate/Lemmas.lean`).  `resolve` is the algorithm of the pinned
+commit (`template_update_single`: format the template, take `Path(..).name`, join it to `cache_dir`); the
+correspondence check decides on every run whether the working tree still runs it.
+-/
 namespace PydraModel.PathTemplate
+
+/-- FULL statement of the property for template-derived paths: every resolved path is `cd / n` with `n` a plain
+    file name.  NOT provable for the pinned code (D16); refuted by `C26_full_statement_false`. -/
+def C26_full_statement : Prop :=
+  ∀ (cd : Str) (c : Config),
+    (∀ p, resolve cd c .template = .ok (.one p) → InsideAsPlainName cd p) ∧
+    (∀ ps, resolve cd c .template = .ok (.many ps) → ∀ p ∈ ps, InsideAsPlainName cd p)
+
+/-! ### containment -/
+
+/-- PARTIAL: under the decidable hypothesis `TemplateTailOK` (the last component of the formatted template is a real
+    name) the resolved path is directly inside the job directory, as a plain name.  Any template, values, lengths. -/
+theorem C26_partial (cd : Str) (c : Config) (h : TemplateTailOK c = true) (p : Str)
+    (hp : resolve cd c .template = .ok (.one p)) : InsideAsPlainName cd p := by
+  unfold resolve at hp
+  simp only at hp
+  cases hsf : singleFormat c with
+  | error e => simp [hsf] at hp
+  | ok o =>
+    cases o with
+    | none => simp [hsf] at hp
+    | some f =>
+      cases f with
+      | many ss => simp [hsf] at hp
+      | one s =>
+        simp [hsf] at hp
+        have ht : TailOK s = true := by
+          simpa [TemplateTailOK, formattedStrings, hsf] using h
+        have hn := pathName_of_tailOK ht
+        refine ⟨pathName s, hn, ?_⟩
+        rw [← hp, joinCd_plain _ _ hn.1]
+
+/-- PARTIAL, list-valued outputs (`MultiOutputFile`): every element is inside as a plain name. -/
+theorem C26_partial_many (cd : Str) (c : Config) (h : TemplateTailOK c = true) (ps : List Str)
+    (hp : resolve cd c .template = .ok (.many ps)) : ∀ p ∈ ps, InsideAsPlainName cd p := by
+  unfold resolve at hp
+  simp only at hp
+  cases hsf : singleFormat c with
+  | error e => simp [hsf] at hp
+  | ok o =>
+    cases o with
+    | none => simp [hsf] at hp
+    | some f =>
+      cases f with
+      | one s => simp [hsf] at hp
+      | many ss =>
+        simp [hsf] at hp
+        intro p hpm
+        rw [← hp] at hpm
+        obtain ⟨s, hs, rfl⟩ := List.mem_map.mp hpm
+        have hall : ∀ s ∈ ss, TailOK s = true := by
+          simpa [TemplateTailOK, formattedStrings, hsf] using h
+        have hn := pathName_of_tailOK (hall s hs)
+        exact ⟨pathName s, hn, joinCd_plain _ _ hn.1⟩
+
+/-- The hypothesis is exact: when the tail is not a real name the result is the job directory itself or its parent
+    (this is the match rule of known finding D16). -/
+theorem C26_tail_exact (cd : Str) (c : Config) (h : TemplateTailOK c = false) (p : Str)
+    (hp : resolve cd c .template = .ok (.one p)) : p = cd ∨ p = cd ++ ['/', '.', '.'] := by
+  unfold resolve at hp
+  simp only at hp
+  cases hsf : singleFormat c with
+  | error e => simp [hsf] at hp
+  | ok o =>
+    cases o with
+    | none => simp [hsf] at hp
+    | some f =>
+      cases f with
+      | many ss => simp [hsf] at hp
+      | one s =>
+        simp [hsf] at hp
+        have ht : TailOK s = false := by
+          simpa [TemplateTailOK, formattedStrings, hsf] using h
+        rcases pathName_of_not_tailOK ht with h0 | h0
+        · left; rw [← hp, h0]; rfl
+        · right; rw [← hp, h0]; rfl
+
+/-- Whatever the template and values are, the result is the job directory or an immediate child entry of it
+    (never deeper, never elsewhere): the only escapes are the directory itself and `..`. -/
+theorem C26_never_deeper (cd : Str) (c : Config) (p : Str)
+    (hp : resolve cd c .template = .ok (.one p)) :
+    p = cd ∨ ∃ n, n ≠ [] ∧ '/' ∉ n ∧ p = cd ++ '/' :: n := by
+  unfold resolve at hp
+  simp only at hp
+  cases hsf : singleFormat c with
+  | error e => simp [hsf] at hp
+  | ok o =>
+    cases o with
+    | none => simp [hsf] at hp
+    | some f =>
+      cases f with
+      | many ss => simp [hsf] at hp
+      | one s =>
+        simp [hsf] at hp
+        rcases pathName_cases s with h0 | h0 | h0
+        · left; rw [← hp, h0]; rfl
+        · right; exact ⟨['.', '.'], by simp, by simp, by rw [← hp, h0]; rfl⟩
+        · right; exact ⟨pathName s, h0.1, h0.2.2.2, by rw [← hp, joinCd_plain _ _ h0.1]⟩
+
+/-- A sufficient condition on the *template alone*: a template that ends in a literal piece without braces or
+    separator and with at least one non-dot character formats to a string whose tail is a real name, for every
+    dictionary of values — also after an input file's extension has been appended to it. -/
+theorem C26_literal_tail_ok (d : Dict) (t suf s : Str) (hlit : suf.all isLitChar = true) (hsep : '/' ∉ suf)
+    (hdot : ∃ c ∈ suf, c ≠ '.') (hs : fmt d (t ++ suf) = .ok s) :
+    TailOK s = true ∧ ∀ e, '/' ∉ e → TailOK (withExt s (some e)) = true := by
+  obtain ⟨s', _, rfl⟩ := fmt_append_lit_inv d t suf s hlit hs
+  refine ⟨tailOK_append s' suf hsep hdot, ?_⟩
+  intro e he
+  unfold withExt
+  simp only
+  rw [List.append_assoc]
+  apply tailOK_append
+  · simp only [List.mem_append, List.mem_cons, not_or]
+    exact ⟨hsep, by decide, he⟩
+  · obtain ⟨c, hc, hcd⟩ := hdot
+    exact ⟨c, by simp [hc], hcd⟩
+
+/-! ### the known finding (D16) -/
+
+/-- Witness: value ".." resolves to the parent of the job directory. -/
+theorem C26_witness_dotdot :
+    resolve "/c/job".toList { tmpl := "{x}".toList, vals := [("x".toList, .sc (.str "..".toList))], keep := true, multi := false }
+      .template = .ok (.one "/c/job/..".toList) := by decide
+
+/-- Witness: the empty value resolves to the job directory itself. -/
+theorem C26_witness_empty :
+    resolve "/c/job".toList { tmpl := "{x}".toList, vals := [("x".toList, .sc (.str []))], keep := true, multi := false }
+      .template = .ok (.one "/c/job".toList) := by decide
+
+theorem C26_full_statement_false : ¬ C26_full_statement := by
+  intro h
+  obtain ⟨n, hn, he⟩ := (h _ _).1 _ C26_witness_dotdot
+  have : n = ['.', '.'] := by
+    have := List.append_cancel_left (as := "/c/job".toList) (bs := '/' :: n) (cs := "/..".toList) (by simpa using he.symm)
+    simpa using this
+  exact hn.2.2.1 this
+
+/-! ### determinism -/
+
+/-- the job-directory independent part of `resolve`: the names -/
+def names (c : Config) : Except Err (Option Formatted) :=
+  (singleFormat c).map (fun o => o.map fun
+    | .one s => .one (pathName s)
+    | .many ss => .many (ss.map pathName))
+
+def relocate (cd : Str) : Option Formatted → Out
+  | none => .absent
+  | some (.one n) => .one (joinCd cd n)
+  | some (.many ns) => .many (ns.map (joinCd cd))
+
+/-- The resolved path is a function of (template, values, keep_extension, output type) — `names c` — and of the job
+    directory only through the final join. -/
+theorem C26_deterministic (cd : Str) (c : Config) :
+    resolve cd c .template = (names c).map (relocate cd) := by
+  unfold resolve names
+  cases singleFormat c with
+  | error e => rfl
+  | ok o =>
+    cases o with
+    | none => rfl
+    | some f => cases f <;> simp [Except.map, relocate, Option.map, List.map_map, Function.comp_def]
+
+/-- Values of inputs the template does not mention cannot influence the result. -/
+theorem C26_irrelevant_value (cd : Str) (c : Config) (vals' : List (Str × Val))
+    (h : ∀ n ∈ fieldNames c.tmpl, lookupVal c.vals n = lookupVal vals' n) :
+    resolve cd { c with vals := vals' } .template = resolve cd c .template := by
+  have : singleFormat { c with vals := vals' } = singleFormat c := by
+    unfold singleFormat
+    simp only
+    rw [collect_congr c.vals vals' _ h]
+  unfold resolve
+  simp only [this]
+
+/-! ### extensions: the three cases of `_element_formatting` -/
+
+/-- `keep_extension=False`: the result is what the same file *without its extensions* gives. -/
+theorem C26_ext_dropped (tmpl : Str) (d : Dict) (x : Str) (f : FileVal) :
+    elementFormat tmpl d (some (x, f)) false
+      = elementFormat tmpl d (some (x, { f with name := (splitExt f.name).1 })) true := by
+  unfold elementFormat
+  simp only [splitExt_stem, fileStem]
+  simp [withExt]
+
+/-- case 1 — the template ends with the file's field: the file's own name (with its extension when kept) is used. -/
+theorem C26_ext_case_end (tmpl : Str) (d : Dict) (x : Str) (f : FileVal) (keep : Bool)
+    (h : endsWithField tmpl x = true) :
+    elementFormat tmpl d (some (x, f)) keep
+      = fmt ((x, .sc (.str (withExt (fileStem f (splitExt f.name).1)
+              (if keep then (splitExt f.name).2 else none)))) :: d) tmpl := by
+  unfold elementFormat
+  simp [h]
+
+/-- case 2 — the template has no extension of its own: the file's extension is moved to the end. -/
+theorem C26_ext_case_moved (tmpl : Str) (d : Dict) (x : Str) (f : FileVal) (keep : Bool)
+    (h1 : endsWithField tmpl x = false) (h2 : '.' ∉ tmpl) :
+    elementFormat tmpl d (some (x, f)) keep
+      = (fmt ((x, .sc (.str (fileStem f (splitExt f.name).1))) :: d) tmpl).map
+          (fun s => withExt s (if keep then (splitExt f.name).2 else none)) := by
+  unfold elementFormat
+  simp [h1, h2]
+
+/-- case 3 — the template has its own extension: the file's extension is dropped. -/
+theorem C26_ext_case_template_ext (tmpl : Str) (d : Dict) (x : Str) (f : FileVal) (keep : Bool)
+    (h1 : endsWithField tmpl x = false) (h2 : '.' ∈ tmpl) :
+    elementFormat tmpl d (some (x, f)) keep
+      = fmt ((x, .sc (.str (fileStem f (splitExt f.name).1))) :: d) tmpl := by
+  unfold elementFormat
+  simp [h1, h2]
+
+/-- End to end, for names of any length: with `keep_extension`, template `{x}suffix` (suffix without extension) and the
+    file `/dir…/stem.ext` resolve to `<job dir>/stem` + `suffix` + `.ext` — the extension is moved behind the suffix. -/
+theorem C26_ext_moved_name (cd x suf stem ext : Str) (dir : List Str)
+    (hx : x ≠ [] ∧ (∀ c ∈ x, isWord c = true) ∧ x.all Char.isDigit = false)
+    (hsuf : suf ≠ [] ∧ suf.all isLitChar = true ∧ '.' ∉ suf ∧ '/' ∉ suf)
+    (hstem : stem ≠ [] ∧ '.' ∉ stem ∧ '/' ∉ stem) (hext : '/' ∉ ext) :
+    resolve cd { tmpl := '{' :: (x ++ '}' :: suf), vals := [(x, .file ⟨dir, stem ++ '.' :: ext⟩)],
+                 keep := true, multi := false } .template
+      = .ok (.one (cd ++ '/' :: (stem ++ suf ++ '.' :: ext))) := by
+  obtain ⟨hx1, hx2, hx3⟩ := hx
+  obtain ⟨hs1, hs2, hs3, hs4⟩ := hsuf
+  obtain ⟨ht1, ht2, ht3⟩ := hstem
+  have hbrace : '{' ∉ suf := by
+    intro hm
+    have := (List.all_eq_true.mp hs2) '{' hm
+    revert this; decide
+  have hdotx : '.' ∉ x := fun hm => (word_ne_brace (hx2 '.' hm)).2.2.2.2.1 rfl
+  have hnames := fieldNames_single x suf hx2 hx1 hbrace
+  have hfmt := fmt_single [(x, DVal.sc (Scalar.str (renderAbs (dir ++ [stem]))))] x suf (renderAbs (dir ++ [stem]))
+    hx2 hx1 hx3 hs2 (by simp [lookup])
+  have hends := endsWithField_false x suf hs1 hs2
+  have hnodot : ('{' :: (x ++ '}' :: suf)).contains '.' = false := by
+    simp [hdotx, hs3]
+  have hdot : ∃ c ∈ suf ++ '.' :: ext, c ≠ '.' := by
+    cases suf with
+    | nil => exact absurd rfl hs1
+    | cons c r => exact ⟨c, by simp, fun e => hs3 (by simp [e])⟩
+  have hname := pathName_file_tail dir stem (suf ++ '.' :: ext) ht3 (by simp [hs4, hext]) hdot
+  unfold resolve singleFormat
+  simp only [hnames, collect, lookupVal, List.find?, beq_self_eq_true, Option.map, elementFormat, splitExt_of stem ext ht2,
+    fileStem, ht1, if_false, hends, hnodot, hfmt, withExt, Except.map, List.filter, List.append_assoc]
+  simp [hname, joinCd]
+
+/-! ### explicit values -/
+
+/-- An explicitly supplied output path is used as given. -/
+theorem C26_explicit (cd : Str) (c : Config) (p : Str) : resolve cd c (.path p) = .ok (.one p) := rfl
+
+/-- `False` switches the output off. -/
+theorem C26_off (cd : Str) (c : Config) : resolve cd c .off = .ok .absent := rfl
+
+/-! ### non-vacuity -/
+
+def exampleConfig : Config :=
+  { tmpl := "{x}_out".toList, vals := [("x".toList, .file ⟨["data".toList], "img.nii.gz".toList⟩)], keep := true, multi := false }
+
+example : TemplateTailOK exampleConfig = true := by decide
+
+example : resolve "/c/job".toList exampleConfig .template = .ok (.one "/c/job/img_out.nii.gz".toList) := by decide
+
+example : TemplateTailOK { tmpl := "{x}".toList, vals := [("x".toList, .sc (.str "..".toList))], keep := true, multi := false } = false := by
+  decide
+
+example : ("x".toList ≠ [] ∧ (∀ c ∈ "x".toList, isWord c = true) ∧ ("x".toList).all Char.isDigit = false) ∧
+    ("_out".toList ≠ [] ∧ ("_out".toList).all isLitChar = true ∧ '.' ∉ "_out".toList ∧ '/' ∉ "_out".toList) ∧
+    ("img".toList ≠ [] ∧ '.' ∉ "img".toList ∧ '/' ∉ "img".toList) ∧ '/' ∉ "nii.gz".toList := by decide
+
+example : endsWithField "pre_{x}".toList "x".toList = true := by decide
+example : endsWithField "{x}_out".toList "x".toList = false ∧ '.' ∉ "{x}_out".toList := by decide
+example : endsWithField "{x}.txt".toList "x".toList = false ∧ '.' ∈ "{x}.txt".toList := by decide
+
+example : ("_out.txt".toList).all isLitChar = true ∧ '/' ∉ "_out.txt".toList ∧ ∃ c ∈ "_out.txt".toList, c ≠ '.' := by
+  refine ⟨by decide, by decide, 'o', by decide, by decide⟩
+
 end PydraModel.PathTemplate
